@@ -4,7 +4,7 @@
    of coq/C04/Spec.v.  Proofs are in coq/C04/Proofs*.v; nothing here but statements.
    Every theorem is for ALL configurations (any number and kind of processors), all start options and
    ALL sequences of operations (incl. operations after End and further Ends). *)
-From V Require Import C04.Glue C04.ProofsMap C04.ProofsStep C04.ProofsMeets C04.ProofsHeap C04.ProofsProps C04.ProofsWire.
+From V Require Import C04.Glue C04.ProofsMap C04.ProofsStep C04.ProofsMeets C04.ProofsHeap C04.ProofsProps C04.ProofsWire C04.ProofsPar.
 Local Open Scope Z_scope.
 
 (* --- sentence 1: what each configured processor's exporter receives.  The whole final state of a case:
@@ -168,3 +168,25 @@ Print Assumptions observation_print_parse.
 Theorem model_meets_spec_wire : forall (l : list tok) (c : case), parse_case l = Some c -> run_spec l (run_model l) = [].
 Proof. exact model_meets_spec_wire_lemma. Qed.
 Print Assumptions model_meets_spec_wire.
+
+(* --- "from several threads on one span".  Every mutator runs under Span::mu_, so a concurrent execution is
+   an interleaving of the threads' operation lists.  For the threaded cases of ./check (thread i writes only
+   keys and adds only events whose first byte is the digit i; only thread 0 renames, sets the status, asks
+   IsRecording; nobody ends the span while the threads run; at most 4 threads): EVERY interleaving leaves
+   every recordable with the same name, status, attribute map and other fields as the sequential run
+   thread 0, thread 1, ...; its events are an interleaving of the threads' event lists in which the events of
+   each thread appear complete and in call order; IsRecording gives the same answers *)
+Theorem every_interleaving_same_export : forall (ths : list (list (op oval))) (l : list (op oval)) (d : sdata),
+  threads_ok 0 ths = true -> (List.length ths <= 4)%nat -> interleaving ths l -> canonical (d_attrs d) ->
+  let a := apply_ops d l in let b := apply_ops d (List.concat ths) in
+  d_name a = d_name b /\ d_status a = d_status b /\ d_desc a = d_desc b /\ d_attrs a = d_attrs b /\
+  d_kind a = d_kind b /\ d_start a = d_start b /\ d_dur a = d_dur b /\ d_ctx a = d_ctx b /\
+  d_links a = d_links b /\ d_res a = d_res b /\ d_scope a = d_scope b /\
+  exists ea, d_events a = d_events d ++ ea /\
+             d_events b = d_events d ++ List.concat (map (fun t => map event_of (events_of t)) ths) /\
+             interleaving (map (fun t => map event_of (events_of t)) ths) ea /\
+             (forall i, (i < 10)%nat -> filter (ev_name_owned i) ea =
+                                  filter (ev_name_owned i) (List.concat (map (fun t => map event_of (events_of t)) ths))) /\
+  rec_answers true l = rec_answers true (List.concat ths).
+Proof. exact every_interleaving_same_export_lemma. Qed.
+Print Assumptions every_interleaving_same_export.
